@@ -39,6 +39,22 @@ Theorem C16_mutation_independent_partial : forall D v t, decls_ok D = true -> ty
 Proof. exact cp_mutation_independent. Qed.
 Print Assumptions C16_mutation_independent_partial.
 
+(* the same for DeepCopyInto of a type itself (cp_top: "*out = *in" and then every member, without
+   the IsAssignable shortcut that slots take) -- this is what the correspondence run evaluates *)
+Theorem C16_top_copy_deeply_equal : forall D v t n, erase (snd (fst (cp_top D t n v))) = erase v.
+Proof. exact cp_top_erase. Qed.
+Print Assumptions C16_top_copy_deeply_equal.
+
+Theorem C16_top_copy_storage_fresh_partial : forall D, decls_ok D = true -> forall v t n, ty_ok D t = true -> has_type D v t ->
+  let '(n', v', _) := cp_top D t n v in (n <= n')%N /\ in_range n n' (ids v').
+Proof. exact cp_top_range. Qed.
+Print Assumptions C16_top_copy_storage_fresh_partial.
+
+Theorem C16_top_copy_disjoint_partial : forall D v t, decls_ok D = true -> ty_ok D t = true -> has_type D v t ->
+  let '(_, v', _) := cp_top D t (N.succ (max_id v)) v in forall i, In i (ids v) -> ~ In i (ids v').
+Proof. exact cp_top_disjoint. Qed.
+Print Assumptions C16_top_copy_disjoint_partial.
+
 (* a slot whose type has hand-written DeepCopy methods is copied by exactly one call of them *)
 Theorem C16_hand_written_called : forall D t fs n v, resolve D (length D) t = RStruct true fs ->
   cp D t n v = (let '(n1, v') := fresh n v in (n1, v', 1%N)).
@@ -50,6 +66,17 @@ Print Assumptions C16_hand_written_called.
 Theorem C16_assignable_holds_no_storage : forall D fuel v t, has_type D v t -> assignable D fuel t = true -> ids v = [].
 Proof. exact assignable_no_ids. Qed.
 Print Assumptions C16_assignable_holds_no_storage.
+
+(* ... but "hand-written methods are called" is FALSE of the faithful model when the type with the
+   hand-written methods sits, by value, inside a struct that IsAssignable and that struct is copied as
+   a slot: Nested{ W Wrap{ A HandA } } copies W by assignment.  Recorded known finding
+   hand-written-inside-assignable; confirmed on the compiled generated code in every run. *)
+Theorem C16_hand_written_bypassed_refuted :
+  has_type bypass_decls bypass_val (TNamed 1) /\
+  snd (cp_top bypass_decls (TNamed 1) 1 bypass_val) = 0%N /\
+  snd (cp_top bypass_decls (TNamed 2) 1 (VRec [VRec [VS 1]; VS 2])) = 1%N.
+Proof. exact cp_hand_written_bypassed_refuted. Qed.
+Print Assumptions C16_hand_written_bypassed_refuted.
 
 (* the array condition cannot be dropped: type S struct{ F [1]*int } *)
 Theorem C16_array_of_references_refuted :
